@@ -518,6 +518,48 @@ int main(int argc, char** argv) {
       if (n % 9973 == 1) vf::stats().sample(model_case(m));
     });
     vf::stats().add("ev.states", n);
+  } else if (part == "forest") {
+    // (e) the dimension-0 union-find shortcut: every sequence of <= maxe distinct edges forming a forest on nverts
+    // labelled vertices, the edges entering one at a time in that order; vertices either all tied at 0 (birth order =
+    // label order) or born in decreasing label order. Merges of components of rank >= 2 need >= 6 vertices, which the
+    // 4-vertex scopes above never reach.
+    int nv = (int)a.geti("nverts", 6), maxe = (int)a.geti("maxe", 5);
+    g_minlens = {-1, 0};  // all bars of a forest have length >= 1: larger thresholds add nothing here
+    std::vector<std::pair<int, int>> E;
+    for (int i = 0; i < nv; ++i) for (int j = i + 1; j < nv; ++j) E.push_back({i, j});
+    long n = 0;
+    std::vector<int> seq;
+    std::function<void()> rec = [&]() {
+      for (int desc = 0; desc < 2 && !seq.empty(); ++desc) {
+        if (!mine()) continue;
+        ref::Complex m;
+        for (int v = 0; v < nv; ++v) m.s[Simplex{v}] = desc ? nv - 1 - v : 0;
+        for (size_t k = 0; k < seq.size(); ++k) m.s[Simplex{E[seq[k]].first, E[seq[k]].second}] = nv + (double)k;
+        vf::set_case(model_case(m));
+        run_simplicial(m, false, false);
+        vf::end_case();
+        n++;
+        vf::stats().add("ev.nontrivial");
+        if (n % 9973 == 1) vf::stats().sample(model_case(m));
+      }
+      if ((int)seq.size() == maxe) return;
+      for (int e = 0; e < (int)E.size(); ++e) {
+        if (std::find(seq.begin(), seq.end(), e) != seq.end()) continue;
+        // forest test: the new edge must join two different components of the edges chosen so far
+        std::vector<int> comp(nv);
+        for (int v = 0; v < nv; ++v) comp[v] = v;
+        for (int x : seq) {
+          int ca = comp[E[x].first], cb = comp[E[x].second];
+          for (int v = 0; v < nv; ++v) if (comp[v] == cb) comp[v] = ca;
+        }
+        if (comp[E[e].first] == comp[E[e].second]) continue;
+        seq.push_back(e);
+        rec();
+        seq.pop_back();
+      }
+    };
+    rec();
+    vf::stats().add("ev.states", n);
   } else if (part == "delta") {
     long n = 0;
     enumerate_deltas((int)a.geti("maxv", 2), (int)a.geti("maxe", 3), (int)a.geti("maxt", th ? 2 : 1), [&](const Delta& d) {
